@@ -68,8 +68,15 @@ type CaseSpec struct {
 	Opts      Opts   `json:"opts"`
 	Transport string `json:"transport"` // recorder | server | apptest
 	Conc      bool   `json:"conc"`      // requests of Seq are sent in parallel
-	Seq       []Plan `json:"seq"`
-	Label     string `json:"label,omitempty"`
+	// AppCtx: every incoming request context derives from the Context() of a long-lived
+	// application scope of the same provider (http.Server.BaseContext / an outer middleware).
+	AppCtx bool `json:"appctx,omitempty"`
+	// Direct: ScopeMiddleware is handed the real provider, not the spy (so that
+	// scope.Provider() == provider holds); CreateScope cannot be counted, the request's scope is
+	// taken from what the middlewares / handler saw.
+	Direct bool   `json:"direct,omitempty"`
+	Seq    []Plan `json:"seq"`
+	Label  string `json:"label,omitempty"`
 }
 
 type action int
